@@ -38,3 +38,793 @@ pub(crate) fn has_error(c: &ZXController<VHost>) -> bool {
 }
 
 // ---- end shared helpers -----------------------------------------------------------------------
+
+// =============================================================================================
+// Specification helpers (written from the property statements C04/C05/C06/C07)
+// =============================================================================================
+
+pub(crate) fn noop_screen_clocks<FB: crate::host::FrameBuffer>(_s: &mut ZXScreen<FB>, _clocks: usize) {}
+
+pub(crate) fn noop_screen_update<FB: crate::host::FrameBuffer>(_s: &mut ZXScreen<FB>, _rel: u16, _bank: usize, _data: u8) {}
+
+pub(crate) fn spec_frame_len(m: ZXMachine) -> usize {
+    match m {
+        ZXMachine::Sinclair48K => 69888,
+        ZXMachine::Sinclair128K => 70908,
+    }
+}
+
+/// ULA delay for an access to contended memory starting at frame T-state `t` (C04 statement)
+pub(crate) fn spec_delay(m: ZXMachine, t: usize) -> usize {
+    let (t0, line) = match m {
+        ZXMachine::Sinclair48K => (14335usize, 224usize),
+        ZXMachine::Sinclair128K => (14361usize, 228usize),
+    };
+    if t < t0 {
+        return 0;
+    }
+    let d = t - t0;
+    let l = d / line;
+    let x = d % line;
+    if l >= 192 || x >= 128 {
+        return 0;
+    }
+    match x % 8 {
+        0 => 6,
+        1 => 5,
+        2 => 4,
+        3 => 3,
+        4 => 2,
+        5 => 1,
+        _ => 0,
+    }
+}
+
+/// Ghost model of the 128K paging latch: last accepted value and lock.
+#[derive(Clone, Copy)]
+pub(crate) struct SpecLatch {
+    pub val: u8,
+    pub locked: bool,
+}
+
+impl SpecLatch {
+    pub fn reset() -> Self {
+        SpecLatch { val: 0, locked: false }
+    }
+    pub fn write(&mut self, m: ZXMachine, v: u8) {
+        if m == ZXMachine::Sinclair128K && !self.locked {
+            self.val = v;
+            if v & 0x20 != 0 {
+                self.locked = true;
+            }
+        }
+    }
+    /// what the CPU sees in 16K window `w` (0..3)
+    pub fn page(&self, m: ZXMachine, w: usize) -> Page {
+        match m {
+            ZXMachine::Sinclair48K => match w {
+                0 => Page::Rom(0),
+                1 => Page::Ram(0),
+                2 => Page::Ram(1),
+                _ => Page::Ram(2),
+            },
+            ZXMachine::Sinclair128K => match w {
+                0 => Page::Rom((self.val >> 4) & 1),
+                1 => Page::Ram(5),
+                2 => Page::Ram(2),
+                _ => Page::Ram(self.val & 7),
+            },
+        }
+    }
+}
+
+/// Is `addr` in contended memory (C04 statement: 48K 0x4000-0x7FFF; 128K banks 1,3,5,7 wherever paged)
+pub(crate) fn spec_contended(m: ZXMachine, latch: &SpecLatch, addr: u16) -> bool {
+    match m {
+        ZXMachine::Sinclair48K => addr >= 0x4000 && addr <= 0x7FFF,
+        ZXMachine::Sinclair128K => match latch.page(m, (addr >> 14) as usize) {
+            Page::Ram(b) => b & 1 == 1,
+            Page::Rom(_) => false,
+        },
+    }
+}
+
+/// Build a controller at frame time `t` with an arbitrary reachable paging latch (two real port
+/// writes), returning the ghost latch.
+pub(crate) fn any_controller_at(kempston: bool, mouse: bool) -> (ZXController<VHost>, SpecLatch, usize) {
+    let m = crate::emulator::verif_hooks::any_machine();
+    let mut c = mk_controller(m, FbCtx { wx: 0, wy: 0 }, kempston, mouse);
+    let mut latch = SpecLatch::reset();
+    let (v1, v2): (u8, u8) = (kani::any(), kani::any());
+    c.write_7ffd_machine(v1);
+    latch.write(m, v1);
+    c.write_7ffd_machine(v2);
+    latch.write(m, v2);
+    let t: usize = kani::any();
+    kani::assume(t < spec_frame_len(m));
+    c.frame_clocks = t;
+    (c, latch, t)
+}
+
+impl ZXController<VHost> {
+    /// what `write_io` does for a paging-port write, minus bus timing (the 128K-only test is in write_io)
+    fn write_7ffd_machine(&mut self, v: u8) {
+        if self.machine == ZXMachine::Sinclair128K {
+            self.write_7ffd(v);
+        }
+    }
+}
+
+/// elapsed T-states between a start time `t0` (with passed_frames = 0) and now
+pub(crate) fn elapsed(c: &ZXController<VHost>, t0: usize) -> usize {
+    c.frame_clocks + c.passed_frames * spec_frame_len(c.machine) - t0
+}
+
+// =============================================================================================
+// C04 — contention
+// =============================================================================================
+
+// @harness
+// @prop C04
+// @tier quick
+// @timeout 600
+// @fn ZXController::wait_mreq; ZXController::wait_no_mreq; ZXController::wait_internal; ZXController::do_contention; ZXController::addr_is_contended; ZXController::new_frame; ZXController::write_7ffd; ZXMachine::contention_clocks; ZXMachine::bank_is_contended; ZXMemory::get_page; ZXSpecsBuilder::build; Z80Bus::read (default); Z80Bus::write (default)
+// @sym machine, 7FFD latch (two symbolic writes incl. lock), frame T-state in [0,frame), 16-bit address, cycle length in {1,3,4}, mreq/no-mreq/read/write flavour, data byte
+// @assert elapsed T-states (across a frame wrap) == delay(T) + cycle length for an address in contended RAM, == cycle length otherwise; delay(T) = 6,5,4,3,2,1,0,0 by (T-T0) mod 8 in the first 128 T of the 192 picture lines, T0/line = 14335/224 (48K), 14361/228 (128K)
+// @bound one bus cycle per query from every frame time and latch state; sequences compose because the CPU issues exactly these primitives (C03)
+// @stub ZXScreen::process_clocks -> no-op (video state is not read by the timing code; C08 owns it)
+// @replay solver-only
+#[kani::proof]
+#[kani::stub(crate::zx::video::screen::ZXScreen::process_clocks, noop_screen_clocks)]
+fn c04_memory_cycle() {
+    let (mut c, latch, t) = any_controller_at(false, false);
+    let m = c.machine;
+    let addr: u16 = kani::any();
+    let clk: usize = kani::any();
+    kani::assume(clk == 1 || clk == 3 || clk == 4);
+    let flavour: u8 = kani::any();
+    kani::assume(flavour < 4);
+    match flavour {
+        0 => c.wait_mreq(addr, clk),
+        1 => c.wait_no_mreq(addr, clk),
+        2 => {
+            let _ = c.read(addr, clk);
+        }
+        _ => c.write(addr, kani::any(), clk),
+    }
+    let cont = spec_contended(m, &latch, addr);
+    let want = if cont { spec_delay(m, t) + clk } else { clk };
+    kani::assert(elapsed(&c, t) == want, "c04.mem.elapsed_equals_delay_plus_cycle");
+    kani::assert(c.frame_clocks < spec_frame_len(m), "c04.mem.clock_in_frame");
+    kani::assert(c.passed_frames <= 1, "c04.mem.at_most_one_frame_end");
+    kani::cover!(cont && spec_delay(m, t) == 6 && m == ZXMachine::Sinclair128K && addr >= 0xC000, "128K paged odd bank contended by 6");
+    kani::cover!(cont && spec_delay(m, t) == 1 && m == ZXMachine::Sinclair48K, "48K delay 1");
+    kani::cover!(!cont && addr >= 0xC000 && m == ZXMachine::Sinclair128K && spec_delay(m, t) > 0, "128K even bank not contended");
+    kani::cover!(c.passed_frames == 1, "frame wrap");
+}
+
+// @harness
+// @prop C04
+// @tier quick
+// @timeout 600
+// @fn Z80Bus::wait_loop (default, as inherited by ZXController); ZXController::wait_no_mreq; ZXController::wait_mreq; ZXController::wait_internal; ZXMachine::contention_clocks
+// @sym machine, latch, frame T-state, address, count 0..7
+// @assert n single internal T-states carrying an address each get their own ULA delay: elapsed == sum over i of (delay(t_i) if contended) + 1 with t_{i+1} = t_i + step_i (mod frame)
+// @bound count <= 7 (the CPU never issues more than 7; unwind 9)
+// @stub ZXScreen::process_clocks -> no-op
+// @replay solver-only
+#[kani::proof]
+#[kani::unwind(10)]
+#[kani::stub(crate::zx::video::screen::ZXScreen::process_clocks, noop_screen_clocks)]
+fn c04_wait_loop() {
+    let (mut c, latch, t) = any_controller_at(false, false);
+    let m = c.machine;
+    let addr: u16 = kani::any();
+    let n: usize = kani::any();
+    kani::assume(n <= 7);
+    c.wait_loop(addr, n);
+    let cont = spec_contended(m, &latch, addr);
+    let f = spec_frame_len(m);
+    let mut tt = t;
+    let mut total = 0usize;
+    let mut i = 0;
+    while i < 7 {
+        if i < n {
+            let step = if cont { spec_delay(m, tt % f) + 1 } else { 1 };
+            total += step;
+            tt += step;
+        }
+        i += 1;
+    }
+    kani::assert(elapsed(&c, t) == total, "c04.loop.each_tstate_delayed_separately");
+    kani::cover!(n == 7 && cont && total > 20, "seven contended T-states");
+    kani::cover!(n == 5 && !cont, "uncontended loop");
+}
+
+/// C04 port-cycle specification: the four ULA patterns.
+pub(crate) fn spec_io_elapsed(m: ZXMachine, latch: &SpecLatch, port: u16, t: usize) -> usize {
+    let f = spec_frame_len(m);
+    let hi_cont = spec_contended(m, latch, port);
+    let low = port & 1 == 0;
+    let mut tt = t;
+    let c = |tt: &mut usize, n: usize| {
+        *tt += spec_delay(m, *tt % f) + n;
+    };
+    match (hi_cont, low) {
+        (false, true) => {
+            tt += 1; // N:1
+            c(&mut tt, 3); // C:3
+        }
+        (false, false) => {
+            tt += 4; // N:4
+        }
+        (true, true) => {
+            c(&mut tt, 1); // C:1
+            c(&mut tt, 3); // C:3
+        }
+        (true, false) => {
+            c(&mut tt, 1);
+            c(&mut tt, 1);
+            c(&mut tt, 1);
+            c(&mut tt, 1);
+        }
+    }
+    tt - t
+}
+
+// @harness
+// @prop C04
+// @tier quick
+// @timeout 900
+// @fn ZXController::read_io; ZXController::io_contention_first; ZXController::io_contention_last; ZXController::do_contention_and_wait; ZXMachine::port_is_contended; ZXController::floating_bus_value
+// @sym machine, latch, frame T-state, 16-bit port
+// @assert a port read takes 4 T plus the ULA delays of the pattern selected by A0 and by whether the high byte addresses contended RAM: N:1,C:3 / N:4 / C:1,C:3 / C:1,C:1,C:1,C:1
+// @bound one port cycle per query; keyboard row loop unwound 9
+// @stub ZXScreen::process_clocks -> no-op
+// @replay solver-only
+#[kani::proof]
+#[kani::unwind(10)]
+#[kani::stub(crate::zx::video::screen::ZXScreen::process_clocks, noop_screen_clocks)]
+fn c04_port_read() {
+    let (mut c, latch, t) = any_controller_at(false, false);
+    let m = c.machine;
+    let port: u16 = kani::any();
+    let _ = c.read_io(port);
+    let want = spec_io_elapsed(m, &latch, port, t);
+    kani::assert(elapsed(&c, t) == want, "c04.io_read.pattern");
+    kani::cover!(want == 4, "uncontended port cycle");
+    kani::cover!(want > 14 && port & 1 == 1, "C:1 x4 pattern with delays");
+    kani::cover!(want > 8 && port & 1 == 0 && !spec_contended(m, &latch, port), "N:1,C:3 with delay");
+}
+
+// @harness
+// @prop C04
+// @tier quick
+// @timeout 900
+// @fn ZXController::write_io; ZXController::io_contention_first; ZXController::io_contention_last; ZXController::set_border_color; ZXController::write_7ffd
+// @sym machine, latch, frame T-state, 16-bit port, data
+// @assert a port write takes 4 T plus the ULA delays of the selected pattern; when the write itself changes the paging latch the pattern is still selected by the mapping... see @outside
+// @assume the write does not itself change which bank is mapped where the port's high byte points (port is not an accepted 128K paging write with a different bank/parity), because the statement does not say which mapping times such a cycle
+// @bound one port cycle per query
+// @stub ZXScreen::process_clocks -> no-op
+// @replay solver-only
+#[kani::proof]
+#[kani::stub(crate::zx::video::screen::ZXScreen::process_clocks, noop_screen_clocks)]
+fn c04_port_write() {
+    let (mut c, latch, t) = any_controller_at(false, false);
+    let m = c.machine;
+    let port: u16 = kani::any();
+    let data: u8 = kani::any();
+    let mut after = latch;
+    if port & 0x8003 == 0x0001 {
+        after.write(m, data);
+    }
+    kani::assume(spec_contended(m, &after, port) == spec_contended(m, &latch, port));
+    c.write_io(port, data);
+    let want = spec_io_elapsed(m, &latch, port, t);
+    kani::assert(elapsed(&c, t) == want, "c04.io_write.pattern");
+    kani::cover!(want == 4, "uncontended port cycle");
+    kani::cover!(want > 14 && port & 1 == 1, "C:1 x4 pattern with delays");
+    kani::cover!(port & 0x8003 == 0x0001 && m == ZXMachine::Sinclair128K && after.val != latch.val, "paging write timed");
+}
+
+// =============================================================================================
+// C05 — frame length, INT pulse, conservation of T-states
+// =============================================================================================
+
+// @harness
+// @prop C05
+// @tier quick
+// @timeout 300
+// @fn ZXSpecsBuilder::build (whole builder chain through lazy_static); ZXMachine::specs; ZXController::int_active
+// @sym machine, frame T-state
+// @assert frame length is 69888 / 70908 T, line length 224 / 228 T, INT pulse length 32 T; the INT line is active exactly for frame T-states 0..31
+// @bound all in-frame T-states, both machines
+#[kani::proof]
+fn c05_constants_and_int_pulse() {
+    let m = crate::emulator::verif_hooks::any_machine();
+    let s = m.specs();
+    kani::assert(s.clocks_frame == spec_frame_len(m), "c05.const.frame_length");
+    kani::assert(s.clocks_line == if m == ZXMachine::Sinclair48K { 224 } else { 228 }, "c05.const.line_length");
+    kani::assert(s.interrupt_length == 32, "c05.const.int_length");
+    let mut c = mk_controller(m, FbCtx { wx: 0, wy: 0 }, false, false);
+    let t: usize = kani::any();
+    kani::assume(t < spec_frame_len(m));
+    c.frame_clocks = t;
+    kani::assert(c.int_active() == (t < 32), "c05.int.active_first_32_tstates");
+    kani::assert(!c.nmi_active(), "c05.int.no_nmi_source");
+    kani::cover!(t == 31 && c.int_active(), "last T-state of the pulse");
+    kani::cover!(t == 32 && !c.int_active(), "first T-state after the pulse");
+}
+
+// @harness
+// @prop C05
+// @tier quick
+// @timeout 600
+// @fn ZXController::wait_internal; ZXController::new_frame; ZXController::frames_count; ZXController::reset_frame_counter
+// @sym machine, frame T-state, step length 0..=frame-1 (the CPU issues at most 7 at once), frames already counted
+// @assert conservation: clock' + frame*(frames' - frames) == clock + step; at most one frame end per step; clock' < frame (invariant); the overrun is carried, never dropped
+// @bound one clock step from any in-frame time (inductive for runs of any length)
+// @stub ZXScreen::process_clocks -> no-op
+// @replay solver-only
+#[kani::proof]
+#[kani::stub(crate::zx::video::screen::ZXScreen::process_clocks, noop_screen_clocks)]
+fn c05_clock_step_conserves_time() {
+    let m = crate::emulator::verif_hooks::any_machine();
+    let f = spec_frame_len(m);
+    let mut c = mk_controller(m, FbCtx { wx: 0, wy: 0 }, false, false);
+    let t: usize = kani::any();
+    let step: usize = kani::any();
+    let frames0: usize = kani::any();
+    kani::assume(t < f && step < f && frames0 < 1000);
+    c.frame_clocks = t;
+    c.passed_frames = frames0;
+    c.wait_internal(step);
+    let df = c.frames_count() - frames0;
+    kani::assert(c.frame_clocks + f * df == t + step, "c05.step.time_conserved");
+    kani::assert(df <= 1, "c05.step.at_most_one_frame_end");
+    kani::assert(c.frame_clocks < f, "c05.step.clock_stays_in_frame");
+    c.reset_frame_counter();
+    kani::assert(c.frames_count() == 0 && c.frame_clocks + f * df == t + step, "c05.step.counter_reset_keeps_clock");
+    kani::cover!(df == 1 && c.frame_clocks == 5, "overrun of 5 T carried into the next frame");
+    kani::cover!(df == 0 && step == 7, "ordinary step");
+}
+
+// =============================================================================================
+// C06 — memory map and 128K paging
+// =============================================================================================
+
+fn page_eq(a: Page, b: Page) -> bool {
+    a == b
+}
+
+// @harness
+// @prop C06
+// @tier quick
+// @timeout 900
+// @fn ZXController::write_io (paging arm and every other arm); ZXController::write_7ffd; ZXController::read_7ffd; ZXMemory::remap; ZXMemory::get_bank_type; ZXMemory::get_page; ZXMemory::new
+// @sym machine, three port writes with fully symbolic 16-bit port and data (so paging writes, non-paging writes, locked writes in any order), start frame time
+// @assert after any 3 port writes the four 16K windows map exactly what the paging rules say: ROM = bit 4 of the last accepted value, 0x4000 bank 5, 0x8000 bank 2, 0xC000 bank = bits 0-2; a value with bit 5 locks the latch for good; 48K ignores all paging writes; writes to other ports never change the map
+// @assume ports that select both the ULA and the paging latch (A0=0 with A15=0,A1=0 on the 128K) are excluded: the statement speaks of paging writes only
+// @bound 3 writes from reset: every reachable (value, lock) latch state is reached by <= 2 writes, the third exercises the step from it
+// @stub ZXScreen::process_clocks -> no-op
+// @replay solver-only
+#[kani::proof]
+#[kani::unwind(10)]
+#[kani::stub(crate::zx::video::screen::ZXScreen::process_clocks, noop_screen_clocks)]
+fn c06_paging_latch_history() {
+    let m = crate::emulator::verif_hooks::any_machine();
+    let mut c = mk_controller(m, FbCtx { wx: 0, wy: 0 }, false, false);
+    let t: usize = kani::any();
+    kani::assume(t < spec_frame_len(m));
+    c.frame_clocks = t;
+    let mut latch = SpecLatch::reset();
+    let mut accepted = 0u8;
+    let mut i = 0;
+    while i < 3 {
+        let port: u16 = kani::any();
+        let data: u8 = kani::any();
+        let paging = m == ZXMachine::Sinclair128K && port & 0x8002 == 0;
+        kani::assume(!(paging && port & 1 == 0));
+        if paging {
+            if !latch.locked {
+                accepted += 1;
+            }
+            latch.write(m, data);
+        }
+        c.write_io(port, data);
+        i += 1;
+    }
+    let mut w = 0;
+    while w < 4 {
+        kani::assert(page_eq(c.memory.get_bank_type(w), latch.page(m, w)), "c06.latch.window_maps_spec_page");
+        w += 1;
+    }
+    if m == ZXMachine::Sinclair128K {
+        kani::assert(c.read_7ffd() == latch.val, "c06.latch.value_is_last_accepted");
+        kani::assert(c.paging_enabled == !latch.locked, "c06.latch.lock");
+    }
+    kani::cover!(m == ZXMachine::Sinclair128K && latch.locked && accepted == 2, "lock reached on the 2nd accepted write, 3rd ignored or foreign");
+    kani::cover!(m == ZXMachine::Sinclair128K && accepted == 3 && latch.val & 0x17 == 0x13, "three accepted writes, ROM 1 bank 3");
+    kani::cover!(m == ZXMachine::Sinclair48K, "48K");
+}
+
+// @harness
+// @prop C06
+// @tier quick
+// @timeout 1500
+// @fn Z80Bus::write (default) -> ZXController::write_internal -> ZXMemory::write; Z80Bus::read (default) -> ZXController::read_internal -> ZXMemory::read; ZXMemory::paged_address; ZXController::write_7ffd
+// @sym machine, latch (two writes), write address a1 (fully symbolic 16 bit), data, read address a2 (fully symbolic)
+// @assert a byte written at a1 is read back at a2 exactly when both addresses denote the same RAM bank and offset under the paging rules (incl. bank 5 or 2 paged at 0xC000); every other address still reads its prior content; a write into the ROM window changes nothing
+// @bound one write + one read on zero-initialised memory (prior content 0, written data != 0)
+// @stub ZXScreen::process_clocks -> no-op; ZXScreen::update -> no-op (the display copy is C08's subject)
+// @replay solver-only
+#[kani::proof]
+#[kani::stub(crate::zx::video::screen::ZXScreen::process_clocks, noop_screen_clocks)]
+#[kani::stub(crate::zx::video::screen::ZXScreen::update, noop_screen_update)]
+fn c06_window_aliasing() {
+    let (mut c, latch, _t) = any_controller_at(false, false);
+    let m = c.machine;
+    let a1: u16 = kani::any();
+    let a2: u16 = kani::any();
+    let d: u8 = kani::any();
+    kani::assume(d != 0);
+    c.write(a1, d, 3);
+    let got = c.read(a2, 3);
+    let p1 = latch.page(m, (a1 >> 14) as usize);
+    let p2 = latch.page(m, (a2 >> 14) as usize);
+    let same = match (p1, p2) {
+        (Page::Ram(b1), Page::Ram(b2)) => b1 == b2 && (a1 & 0x3FFF) == (a2 & 0x3FFF),
+        _ => false,
+    };
+    kani::assert(got == if same { d } else { 0 }, "c06.alias.read_back_iff_same_bank_and_offset");
+    kani::cover!(same && a1 != a2 && a1 >= 0xC000, "bank 5 or 2 seen through 0xC000 and its fixed window");
+    kani::cover!(!same && (a1 & 0x3FFF) == (a2 & 0x3FFF) && a1 >= 0x4000 && a2 >= 0x4000, "same offset, different banks");
+    kani::cover!(a1 < 0x4000 && a2 == a1, "write into ROM ignored");
+}
+
+// @harness
+// @prop C06
+// @tier quick
+// @timeout 900
+// @fn ZXMemory::rom_page_data_mut; ZXMemory::read; ZXController::write_7ffd; ZXController::read_internal
+// @sym machine, latch, witness byte value, witness ROM page (both) x offset in {0, 0x056B, 0x3FFE, 0x3FFF} chosen symbolically but stored at concrete indices, read address fully symbolic
+// @assert 0x0000-0x3FFF reads the byte of the ROM image selected by bit 4 of the last accepted paging value at the same offset (48K: the only ROM), for the witness byte and (zero image) every other one
+// @bound one witness byte per query; the page copy loop of load_rom itself is covered in C15
+// @stub ZXScreen::process_clocks -> no-op
+// @replay solver-only
+#[kani::proof]
+#[kani::stub(crate::zx::video::screen::ZXScreen::process_clocks, noop_screen_clocks)]
+fn c06_rom_window() {
+    let (mut c, latch, _t) = any_controller_at(false, false);
+    let m = c.machine;
+    // witness position: ROM page enumerated, offset from the concrete class (a symbolic store through
+    // the page slice does not terminate in CBMC); the read address below stays fully symbolic
+    let page: u8 = if kani::any() && m == ZXMachine::Sinclair128K { 1 } else { 0 };
+    let off: usize = match kani::any::<u8>() & 3 {
+        0 => 0,
+        1 => 0x056B,
+        2 => 0x3FFE,
+        _ => 0x3FFF,
+    };
+    let v: u8 = kani::any();
+    kani::assume(v != 0);
+    if page == 0 {
+        match off {
+            0 => c.memory.rom_page_data_mut(0)[0] = v,
+            0x056B => c.memory.rom_page_data_mut(0)[0x056B] = v,
+            0x3FFE => c.memory.rom_page_data_mut(0)[0x3FFE] = v,
+            _ => c.memory.rom_page_data_mut(0)[0x3FFF] = v,
+        }
+    } else {
+        match off {
+            0 => c.memory.rom_page_data_mut(1)[0] = v,
+            0x056B => c.memory.rom_page_data_mut(1)[0x056B] = v,
+            0x3FFE => c.memory.rom_page_data_mut(1)[0x3FFE] = v,
+            _ => c.memory.rom_page_data_mut(1)[0x3FFF] = v,
+        }
+    }
+    let a: u16 = kani::any();
+    kani::assume(a < 0x4000);
+    let got = c.read(a, 3);
+    let sel = match latch.page(m, 0) {
+        Page::Rom(r) => r,
+        Page::Ram(_) => 0xFF,
+    };
+    kani::assert(sel != 0xFF, "c06.rom.window0_is_rom");
+    let want = if sel == page && a as usize == off { v } else { 0 };
+    kani::assert(got == want, "c06.rom.reads_selected_image");
+    kani::cover!(sel == 1 && page == 1 && got == v, "ROM 1 selected and read");
+    kani::cover!(sel == 0 && page == 1 && a as usize == off, "witness in the unselected ROM is invisible");
+}
+
+// =============================================================================================
+// C07 — port decoding and floating bus
+// =============================================================================================
+
+/// Which devices a port address selects under the partial decoding of the C07 statement.
+#[derive(Clone, Copy)]
+pub(crate) struct Sel {
+    pub ext: bool,
+    pub ula: bool,
+    pub page: bool,
+    pub ay_sel: bool,
+    pub ay_data: bool,
+    pub kemp: bool,
+    pub mouse_b: bool,
+    pub mouse_x: bool,
+    pub mouse_y: bool,
+    pub mouse_unspecified: bool,
+}
+
+impl Sel {
+    /// devices other than the host extender
+    pub fn count(&self) -> u8 {
+        self.ula as u8
+            + self.page as u8
+            + self.ay_sel as u8
+            + self.ay_data as u8
+            + self.kemp as u8
+            + (self.mouse_b || self.mouse_x || self.mouse_y || self.mouse_unspecified) as u8
+    }
+}
+
+pub(crate) fn spec_select(m: ZXMachine, port: u16, kemp_on: bool, mouse_on: bool, ext: Option<(u16, u16)>) -> Sel {
+    let a = |n: u16| port & (1 << n) != 0;
+    // Kempston mouse: low byte of the 0xDF style (A5 = 0, odd); buttons/X/Y by (A8, A10) = (0,0)/(1,0)/(1,1)
+    let mouse_style = mouse_on && !a(5) && a(0);
+    Sel {
+        ext: match ext {
+            Some((mask, val)) => port & mask == val,
+            None => false,
+        },
+        ula: !a(0),
+        page: m == ZXMachine::Sinclair128K && !a(15) && !a(1),
+        ay_sel: a(15) && a(14) && !a(1),
+        ay_data: a(15) && !a(14) && !a(1),
+        kemp: kemp_on && port & 0x00E0 == 0,
+        mouse_b: mouse_style && !a(8) && !a(10),
+        mouse_x: mouse_style && a(8) && !a(10),
+        mouse_y: mouse_style && a(8) && a(10),
+        mouse_unspecified: mouse_style && !a(8) && a(10),
+    }
+}
+
+/// Symbolic device configuration on top of `any_controller_at`.
+pub(crate) struct Cfg {
+    pub kemp_on: bool,
+    pub mouse_on: bool,
+    pub ext: Option<(u16, u16)>,
+    pub kemp_state: u8,
+    pub mouse: (u8, u8, u8),
+    pub ext_answer: u8,
+}
+
+pub(crate) fn any_devices(c: &mut ZXController<VHost>) -> Cfg {
+    let kemp_on = c.kempston.is_some();
+    let mouse_on = c.mouse.is_some();
+    let kemp_state: u8 = kani::any();
+    if let Some(k) = &mut c.kempston {
+        crate::zx::joy::kempston::verif_hooks::set_state(k, kemp_state);
+    }
+    let mouse: (u8, u8, u8) = (kani::any(), kani::any(), kani::any());
+    if let Some(ms) = &mut c.mouse {
+        ms.buttons_port = mouse.0;
+        ms.x_pos_port = mouse.1;
+        ms.y_pos_port = mouse.2;
+    }
+    let ext_answer: u8 = kani::any();
+    let ext = if kani::any() {
+        let (mask, val): (u16, u16) = (kani::any(), kani::any());
+        kani::assume(val & !mask == 0);
+        c.io_extender = Some(crate::verif_hooks::VExt { mask, val, answer: ext_answer, reads: 0, writes: 0, last_port: 0, last_data: 0 });
+        Some((mask, val))
+    } else {
+        None
+    };
+    let mut r = 0;
+    while r < 8 {
+        let (k, e, s): (u8, u8, u8) = (kani::any(), kani::any(), kani::any());
+        // representation invariant of the three matrices (preserved by every event: C17): bits 5-7 set
+        c.keyboard[r] = k | 0xE0;
+        c.keyboard_extended[r] = e | 0xE0;
+        c.keyboard_sinclair[r] = s | 0xE0;
+        r += 1;
+    }
+    Cfg { kemp_on, mouse_on, ext, kemp_state, mouse, ext_answer }
+}
+
+// @harness
+// @prop C07
+// @tier quick
+// @timeout 900
+// @fn ZXController::write_io; ZXController::set_border_color; ZXController::write_7ffd; ZXController::write_ay_port; ZXController::select_ay_reg; IoExtender dispatch
+// @sym machine, latch, frame time, 16-bit port, data, Kempston joystick/mouse present or not with arbitrary state, extender present or not claiming (port & mask) == val for symbolic mask/val, keyboard matrices
+// @assert for every port selecting at most one device: an even port sets the border to data&7 and nothing else; a 128K paging port updates the latch per C06 and nothing else; an extender port reaches the extender exactly once with (port, data) and nothing else; ports of read-only or absent devices change nothing
+// @assume the port selects at most one built-in device (statement: "selects exactly one device"); when the extender also claims it only the extender side is asserted (statement: the extender "receives exactly the ports it claims")
+// @bound one port write per query; AY register effects are in c07_ay_ports (feature ay)
+// @stub ZXScreen::process_clocks -> no-op
+// @replay solver-only
+#[kani::proof]
+#[kani::unwind(10)]
+#[kani::stub(crate::zx::video::screen::ZXScreen::process_clocks, noop_screen_clocks)]
+fn c07_write_reaches_one_device() {
+    let kemp: bool = kani::any();
+    let mouse: bool = kani::any();
+    let (mut c, latch, _t) = any_controller_at(kemp, mouse);
+    let m = c.machine;
+    let cfg = any_devices(&mut c);
+    let port: u16 = kani::any();
+    let data: u8 = kani::any();
+    let sel = spec_select(m, port, cfg.kemp_on, cfg.mouse_on, cfg.ext);
+    kani::assume(sel.count() <= 1);
+    let border0: u8 = c.border_color.into();
+    c.write_io(port, data);
+    let mut want_latch = latch;
+    if sel.page {
+        want_latch.write(m, data);
+    }
+    let border1: u8 = c.border_color.into();
+    // a port claimed by the extender AND decoded by a built-in device selects two devices: only the
+    // extender's side is asserted then
+    if !(sel.ext && sel.count() == 1) {
+        kani::assert(border1 == if sel.ula { data & 7 } else { border0 }, "c07.write.border_only_from_ula_port");
+        if m == ZXMachine::Sinclair128K {
+            kani::assert(c.read_7ffd() == want_latch.val && c.paging_enabled == !want_latch.locked, "c07.write.latch_only_from_paging_port");
+        }
+        kani::assert(page_eq(c.memory.get_bank_type(3), want_latch.page(m, 3)) && page_eq(c.memory.get_bank_type(0), want_latch.page(m, 0)), "c07.write.map_follows_latch");
+    }
+    if let Some(e) = &c.io_extender {
+        kani::assert(e.reads == 0, "c07.write.extender_not_read");
+        if sel.ext {
+            kani::assert(e.writes == 1 && e.last_port == port && e.last_data == data, "c07.write.extender_gets_its_port");
+        } else {
+            kani::assert(e.writes == 0, "c07.write.extender_gets_only_its_ports");
+        }
+    }
+    if let Some(k) = &c.kempston {
+        kani::assert(k.read() == cfg.kemp_state, "c07.write.joystick_untouched");
+    }
+    if let Some(ms) = &c.mouse {
+        kani::assert((ms.buttons_port, ms.x_pos_port, ms.y_pos_port) == cfg.mouse, "c07.write.mouse_untouched");
+    }
+    kani::cover!(sel.ext && sel.count() == 0, "extender claims a port no built-in device decodes");
+    kani::cover!(sel.ext && sel.ula, "extender claims an even port");
+    kani::cover!(sel.page && !sel.ext && want_latch.val != latch.val, "paging write");
+    kani::cover!(sel.ula && !sel.ext && border1 != border0, "border write");
+    kani::cover!(sel.count() == 0 && !sel.ext, "no device");
+}
+
+/// floating-bus helper: (line, 8T-cell) being fetched at frame time tau, or None-like flags
+fn fetch_pos(m: ZXMachine, tau: isize) -> (bool, usize, usize) {
+    let (fp, line) = match m {
+        ZXMachine::Sinclair48K => (14336isize, 224isize),
+        ZXMachine::Sinclair128K => (14362isize, 228isize),
+    };
+    let d = tau - fp;
+    if d < 0 {
+        return (false, 0, 0);
+    }
+    let l = d / line;
+    let x = d % line;
+    if l >= 192 || x >= 128 {
+        return (false, l as usize, 16);
+    }
+    (true, l as usize, (x / 8) as usize)
+}
+
+// @harness
+// @prop C07
+// @tier quick
+// @timeout 1200
+// @fn ZXController::read_io; ZXController::floating_bus_value; KempstonJoy::read; TapeImpl::current_bit; bitmap_line_addr; ZXMemory::read
+// @sym machine, latch, frame time, 16-bit port, device configuration as in c07_write_reaches_one_device, keyboard/extended/sinclair matrices (bits 5-7 set), one witness byte in display memory (bitmap or attribute, position from a class of 5)
+// @assert for every port selecting at most one device: extender ports return the extender's byte (read once); even ports return the AND of the half-rows selected by zero bits of A8-A15 over the three key sources, bit 6 = EAR, bits 5,7 = 1; Kempston port returns the joystick byte; mouse ports return buttons/X/Y; a port no device claims returns 0xFF when the whole cycle lies outside the picture fetch windows (+-4 T), otherwise 0xFF or a byte of display/attribute memory of the cells fetched during the cycle (+-4 T); reads change no device state
+// @assume at most one device selected; AY ports are excluded in this build (no AY compiled in; see c07_ay_ports); (A8,A10)=(0,1) mouse-style addresses are excluded (statement names only the FADF/FBDF/FFDF forms); tape is the empty deck (EAR low)
+// @bound one port read per query
+// @stub ZXScreen::process_clocks -> no-op
+// @replay solver-only
+#[kani::proof]
+#[kani::unwind(10)]
+#[kani::stub(crate::zx::video::screen::ZXScreen::process_clocks, noop_screen_clocks)]
+fn c07_read_comes_from_one_device() {
+    let kemp: bool = kani::any();
+    let mouse: bool = kani::any();
+    let (mut c, latch, t) = any_controller_at(kemp, mouse);
+    let m = c.machine;
+    let cfg = any_devices(&mut c);
+    // display witness (stored at concrete indices; bank 5 / 48K RAM at 0x4000)
+    let v: u8 = kani::any();
+    kani::assume(v != 0 && v != 0xFF);
+    let wsel: u8 = kani::any();
+    kani::assume(wsel < 5);
+    // (is_attr, line or attr row, column)
+    let (w_attr, w_line, w_col): (bool, usize, usize) = match wsel {
+        0 => {
+            c.memory.write(0x4000, v);
+            (false, 0, 0)
+        }
+        1 => {
+            // line 100 = 0b01100100 -> 0x4000 | 0x0800 | 0x0400 | 0x0080, column 17
+            c.memory.write(0x4C80 + 17, v);
+            (false, 100, 17)
+        }
+        2 => {
+            c.memory.write(0x57FF, v);
+            (false, 191, 31)
+        }
+        3 => {
+            c.memory.write(0x5800 + 12 * 32 + 17, v);
+            (true, 12, 17)
+        }
+        _ => {
+            c.memory.write(0x5AFF, v);
+            (true, 23, 31)
+        }
+    };
+    let port: u16 = kani::any();
+    let sel = spec_select(m, port, cfg.kemp_on, cfg.mouse_on, cfg.ext);
+    kani::assume(sel.count() <= 1 && !sel.ay_sel && !sel.ay_data && !sel.mouse_unspecified);
+    let border0: u8 = c.border_color.into();
+    let got = c.read_io(port);
+    let te = t + elapsed(&c, t);
+    // device state untouched by reads
+    let border1: u8 = c.border_color.into();
+    kani::assert(border1 == border0, "c07.read.border_untouched");
+    if m == ZXMachine::Sinclair128K {
+        kani::assert(c.read_7ffd() == latch.val && c.paging_enabled == !latch.locked, "c07.read.latch_untouched");
+    }
+    if let Some(e) = &c.io_extender {
+        kani::assert(e.writes == 0, "c07.read.extender_not_written");
+        kani::assert(e.reads == if sel.ext { 1 } else { 0 }, "c07.read.extender_gets_only_its_ports");
+    }
+    if sel.ext {
+        kani::assert(got == cfg.ext_answer, "c07.read.extender_answers_its_port");
+    } else if sel.ula {
+        let h = (port >> 8) as u8;
+        let mut want = 0xFFu8;
+        let mut n = 0;
+        while n < 8 {
+            if (h >> n) & 1 == 0 {
+                want &= c.keyboard[n] & c.keyboard_extended[n] & c.keyboard_sinclair[n];
+            }
+            n += 1;
+        }
+        // empty deck: EAR low -> bit 6 = 0; bits 5 and 7 read 1
+        kani::assert(got == (want & 0x1F) | 0xA0, "c07.read.ula_keyboard_and_ear");
+    } else if sel.kemp {
+        kani::assert(got == cfg.kemp_state, "c07.read.kempston");
+    } else if sel.mouse_b {
+        kani::assert(got == cfg.mouse.0, "c07.read.mouse_buttons");
+    } else if sel.mouse_x {
+        kani::assert(got == cfg.mouse.1, "c07.read.mouse_x");
+    } else if sel.mouse_y {
+        kani::assert(got == cfg.mouse.2, "c07.read.mouse_y");
+    } else {
+        // floating bus
+        let (in_lo, l_lo, c_lo) = fetch_pos(m, t as isize - 4);
+        let (in_hi, l_hi, c_hi) = fetch_pos(m, te as isize + 4);
+        let same_gap = !in_lo && !in_hi && (te + 4 - t + 4) < 96 && (l_lo == l_hi || (t as isize - 4) < 14336);
+        if same_gap {
+            kani::assert(got == 0xFF, "c07.float.idle_bus_reads_ff");
+        }
+        kani::assert(got == 0xFF || got == 0 || got == v, "c07.float.only_ff_or_display_bytes");
+        if got == v {
+            // the witness must belong to a cell fetched between t-4 and te+4
+            let wl_lo = if w_attr { w_line * 8 } else { w_line };
+            let wl_hi = if w_attr { w_line * 8 + 7 } else { w_line };
+            let wcell = w_col / 2;
+            let after_lo = (l_lo < wl_hi) || (l_lo <= wl_hi && c_lo <= wcell);
+            let before_hi = (l_hi > wl_lo) || (l_hi >= wl_lo && c_hi >= wcell);
+            kani::assert((in_lo || in_hi) && after_lo && before_hi, "c07.float.byte_is_the_one_being_fetched");
+        }
+        kani::cover!(got == v && w_attr, "attribute byte seen on the floating bus");
+        kani::cover!(got == v && !w_attr && wsel == 1, "bitmap byte seen on the floating bus");
+        kani::cover!(same_gap && t > 20000, "idle bus inside the picture area (right border / retrace)");
+    }
+    kani::cover!(sel.ula && got & 0x1F != 0x1F, "key held on a selected row");
+    kani::cover!(sel.kemp, "kempston read");
+    kani::cover!(sel.mouse_y, "mouse Y read");
+    kani::cover!(sel.ext && port & 1 == 0, "extender answers an even port it claims");
+    kani::cover!(sel.page && !sel.ext, "read from the paging port floats");
+}
